@@ -29,7 +29,8 @@ REQUIRED = ["kind.dynamic", "kind.static", "kind.lanelet", "kind.network", "kind
             "op.network.translate_rotate", "op.add_lanelet", "op.remove_lanelet", "op.scenario.translate_rotate",
             "op.cycle_elements=", "op.element-edit", "op.time_offset=", "history-model-checked",
             "op.add_lanelet-deferred", "op.remove_lanelet-deferred", "op.lanelet.translate_rotate",
-            "network.built-without-index", "op.merge.disjoint", "op.merge.new-then-duplicate", "op.merge.duplicate-first"]
+            "network.built-without-index", "op.merge.disjoint", "op.merge.new-then-duplicate", "op.merge.duplicate-first",
+            "op.lanelet.convert_to_2d"]
 EXHAUSTIVE = {"quick": "per object kind: all mutator sequences of length <= 2 (each step followed by the full query battery)",
               "thorough": "per object kind: all mutator sequences of length <= 3"}
 ASSUMPTIONS = ["direct assignment to vertices or shape parameters is not in the statement's mutator list",
@@ -376,6 +377,27 @@ def run(ctx):
             if bad:
                 return
 
+    def run_lanelet_3d(rng):
+        """a lanelet with z coordinates, queried, then flattened by the public convert_to_2d"""
+        left, center, right = [np.asarray(a, dtype=float) for a in lattice.strip(rng, 0.0, 0.0, 4, 2.0, 3.0)][:3]
+        z = np.array([[rng.choice([0.0, 1.5, 4.0, -2.0]) * k] for k in range(len(center))])
+        la = Lanelet(np.hstack([left, z]), np.hstack([center, z]), np.hstack([right, z]), 1)
+        _ = la.polygon, la.distance, la.inner_distance
+        la.convert_to_2d()
+        ctx.feature("op.lanelet.convert_to_2d")
+        ctx.evaluation()
+        fr = Lanelet(la.left_vertices.copy(), la.center_vertices.copy(), la.right_vertices.copy(), 1)
+        wit = {"kind": "lanelet-3d", "z": z.ravel().tolist()}
+        if la.center_vertices.shape[1] != 2:
+            ctx.violation("C11/lanelet/convert_to_2d-keeps-z", repr(la.center_vertices.shape), wit)
+            return
+        if not geom.rings_equal(geom.open_ring(la.polygon.vertices), geom.open_ring(fr.polygon.vertices), 1e-9):
+            ctx.violation("C11/lanelet/stale-polygon/after-convert_to_2d", "polygon differs from a fresh 2-D lanelet", wit)
+        if len(la.distance) != len(fr.distance) or np.abs(la.distance - fr.distance).max() > 1e-8 or \
+                np.abs(la.inner_distance - fr.inner_distance).max() > 1e-8:
+            ctx.violation("C11/lanelet/stale-distance/after-convert_to_2d", "distance %s, fresh 2-D lanelet %s" % (
+                la.distance.tolist(), fr.distance.tolist()), wit)
+
     def run_lanelet(rng, n):
         pl = lattice.strip(rng, 0.0, 0.0, 4, 2.0, 3.0)
         la = lattice.lanelet(1, pl)
@@ -466,4 +488,5 @@ def run(ctx):
         else:
             seq = ["translate_rotate"] * 3
             run_lanelet(rng, 3)
+            run_lanelet_3d(rng)
         ctx.fingerprint(["rnd", kind, seq, i])
